@@ -61,11 +61,15 @@ class Profile:
         self.proc_points = 0.0           # processors with injection points (KF-C05a)
         self.p_case_variant = 0.15       # custom names differing only in letter case
         self.p_twin = 0.15               # a type with exactly the field layout of another one (convertible pointer types)
+        self.n_bare = (0, 1)             # types without wx.Base: no methods at all (or only unexported ones), zero-size or not
+        self.p_sealed = 0.15             # an interface whose only method is unexported ("sealed")
+        self.p_name_placeholder = 0.1    # a by-name point whose name comes from configuration: wire:"${key}" / "${nokey:name}"
+        self.p_embed_points = 0.1        # injection points declared in an embedded struct of an unexported type
         self.perms = 1
         self.__dict__.update(kw)
 
 
-QUALS = ["qa", "qb", "qc", ""]
+QUALS = ["qa", "qb", "qc", "", "QA", "qB"]
 RETS = ["red", "blue", "green"]
 NAME_POOLS = ["a", "h", "m", "z"]
 
@@ -73,6 +77,7 @@ NAME_POOLS = ["a", "h", "m", "z"]
 def gen_scenario(rng, sid, pf):
     nt = rng.randint(pf.min_types, pf.max_types)
     nif = rng.randint(1, max(1, pf.max_ifaces))
+    sealed = [rng.random() < pf.p_sealed for _ in range(nif)]
     types = []
     for ti in range(nt):
         k = rng.choice([0, 1, 1, 2, nif]) if nif else 0
@@ -104,6 +109,7 @@ def gen_scenario(rng, sid, pf):
                       "closer": False, "proc": rng.choice("POU"), "methods": [], "fields": [], "cfields": []})
     comps = []
     used_names = set()
+    nbare = rng.randint(*pf.n_bare)
 
     def fresh_name():
         while True:
@@ -116,8 +122,20 @@ def gen_scenario(rng, sid, pf):
                 used_names.add(n)
                 return n
 
+    for _ in range(nbare):
+        # no wx.Base, no exported method (unless it announces a constant name): only `any` points, by-name points and
+        # sealed interfaces can be served by such a component; "zero" ones are zero-size (they all share one address)
+        cn = fresh_name() if rng.random() < 0.25 else None
+        types.append({"ifaces": [i for i in range(nif) if sealed[i] and rng.random() < 0.6], "naming": cn is not None,
+                      "qual": False, "primary": False, "lazy": rng.random() < pf.p_lazy, "aps": False, "init": False,
+                      "runner": None, "closer": False, "proc": None, "methods": [], "fields": [], "cfields": [],
+                      "bare": rng.choice(["zero", "zero", "sized"]), "const_name": cn})
     for ti, t in enumerate(types):
         ninst = 1
+        if t.get("bare"):
+            comps.append({"type": ti, "name": t["const_name"] or "", "qual": "", "apsFail": False, "initFail": False,
+                          "runFail": False, "closeErr": False, "ord": 0, "rets": {}, "proc": None})
+            continue
         if t["naming"] and not t["proc"] and rng.random() < pf.p_extra_instance:
             ninst = 2
         for j in range(ninst):
@@ -141,8 +159,9 @@ def gen_scenario(rng, sid, pf):
     # fields
     plain = [ti for ti, t in enumerate(types) if not t["proc"]]
     for ti, t in enumerate(types):
-        if t["proc"] and rng.random() >= pf.proc_points:
+        if t.get("bare") or (t["proc"] and rng.random() >= pf.proc_points):
             continue
+        t["embed"] = rng.random() < pf.p_embed_points
         nf = rng.randint(*pf.fields)
         kinds = list(pf.kind_weights)
         wire, func = [], []
@@ -177,6 +196,8 @@ def gen_scenario(rng, sid, pf):
                     p["target"] = {"ptr": ("ptr", tt), "iface": ("iface", rng.randrange(nif)), "any": ("any",)}[tk]
                 else:
                     p["sel"] = ("name", regname(ci))
+                    if rng.random() < pf.p_name_placeholder:
+                        p["via"] = rng.choice(["cfg", "dflt", "part"])
                     cty = comps[ci]["type"]
                     if r < pf.p_absent_name + pf.p_wrongtype_name:
                         p["target"] = {"ptr": ("ptr", rng.choice(plain)), "iface": ("iface", rng.randrange(nif)),
@@ -218,9 +239,10 @@ def gen_scenario(rng, sid, pf):
     import copy as _copy
     twins = {}
     for ti in plain:
-        if ti > 0 and rng.random() < pf.p_twin:
-            src = rng.choice([x for x in plain if x < ti] or [ti])
+        if ti > 0 and rng.random() < pf.p_twin and not types[ti].get("bare"):
+            src = rng.choice([x for x in plain if x < ti and not types[x].get("bare")] or [ti])
             if src != ti and types[src]["runner"] == types[ti]["runner"]:
+                types[ti]["embed"] = types[src].get("embed", False)
                 types[ti]["fields"] = _copy.deepcopy(types[src]["fields"])
                 types[ti]["cfields"] = _copy.deepcopy(types[src]["cfields"])
                 twins[ti] = src
@@ -234,7 +256,7 @@ def gen_scenario(rng, sid, pf):
                     if named and comps[named[0]]["type"] in twins:
                         p["target"] = ("ptr", twins[comps[named[0]]["type"]])
     # processors' behaviour
-    targets = [i for i, c in enumerate(comps) if not types[c["type"]]["proc"]]
+    targets = [i for i, c in enumerate(comps) if not types[c["type"]]["proc"] and not types[c["type"]].get("bare")]
     for ci, c in enumerate(comps):
         if c["proc"] is None or not targets:
             continue
@@ -254,7 +276,7 @@ def gen_scenario(rng, sid, pf):
                 else:
                     c["proc"]["early"][tci] = 1
                     c["proc"]["after"][tci] = 3
-    scn = {"id": sid, "nif": nif, "types": types, "comps": comps, "loaderFail": rng.random() < pf.p_loader_fail,
+    scn = {"id": sid, "nif": nif, "sealed": sealed, "types": types, "comps": comps, "loaderFail": rng.random() < pf.p_loader_fail,
            "regorder": list(range(len(comps)))}
     if rng.random() < pf.p_valid:
         make_valid(rng, scn)
@@ -371,7 +393,11 @@ def go_type_name(sid, ti):
     return "T%d_%d" % (sid, ti)
 
 
-def tag_of(p):
+def name_key(sid, ti, k):
+    return "wn%d_%d_%d" % (sid, ti, k)
+
+
+def tag_of(p, key=None):
     sel = p["sel"]
     args = ""
     if p["quals"] is not None:
@@ -383,6 +409,14 @@ def tag_of(p):
             args = ",returns=" + " ".join(sel[2]) + args
         return 'func:"%s%s"' % (sel[1], args)
     val = sel[1] if sel[0] == "name" else ""
+    if sel[0] == "name" and p.get("via") and key and val:
+        # the name comes from configuration: whole value, default of an absent key, or a part of the name
+        if p["via"] == "cfg":
+            val = "${%s}" % key
+        elif p["via"] == "dflt":
+            val = "${%s_absent:%s}" % (key, val)
+        else:
+            val = val[:1] + "${%s}" % key
     return 'wire:"%s%s"' % (val, args)
 
 
@@ -396,11 +430,31 @@ def go_field_type(sid, p):
 def gen_go(scn):
     sid = scn["id"]
     out = []
+    sealed = scn.get("sealed") or [False] * scn["nif"]
+    mname = lambda i: ("mI%d_%d" if sealed[i] else "MI%d_%d") % (sid, i)
     for i in range(scn["nif"]):
-        out.append("type I%d_%d interface{ MI%d_%d() }" % (sid, i, sid, i))
+        out.append("type I%d_%d interface{ %s() }" % (sid, i, mname(i)))
     for ti, t in enumerate(scn["types"]):
         tn = go_type_name(sid, ti)
+        if t.get("bare"):
+            out.append("type %s struct {%s}" % (tn, " X int " if t["bare"] == "sized" else ""))
+            for i in t["ifaces"]:
+                out.append("func (t *%s) %s() {}" % (tn, mname(i)))
+            if t.get("const_name"):
+                out.append('func (t *%s) Naming() string { return "%s" }' % (tn, t["const_name"]))
+            if t["lazy"]:
+                out.append("func (t *%s) LazyInit() {}" % tn)
+            out.append('func init() {\n\twx.Ctors["%s"] = func(b wx.Base) any { return &%s{} }\n}' % (tn, tn))
+            continue
+        emb = t.get("embed") and t["fields"]
+        if emb:
+            out.append("type e%s struct {" % tn)
+            for k, p in enumerate(t["fields"]):
+                out.append("\tW%d %s `%s`" % (k, go_field_type(sid, p), tag_of(p, name_key(sid, ti, k))))
+            out.append("}")
         out.append("type %s struct {\n\tb wx.Base" % tn)
+        if emb:
+            out.append("\te%s" % tn)
         binds = []
         if t["proc"]:
             out.append("\twx.ProcCore")
@@ -412,7 +466,8 @@ def gen_go(scn):
         if cls == "P":
             out.append("\twx.PrioM")
         for k, p in enumerate(t["fields"]):
-            out.append("\tW%d %s `%s`" % (k, go_field_type(sid, p), tag_of(p)))
+            if not emb:
+                out.append("\tW%d %s `%s`" % (k, go_field_type(sid, p), tag_of(p, name_key(sid, ti, k))))
         for k, cp in enumerate(t["cfields"]):
             key = "k%d_%d_%d" % (sid, ti, k)
             opt = "" if cp["required"] else ",required=false"
@@ -426,7 +481,7 @@ def gen_go(scn):
         out.append("func (p *P%s) WxTarget() any { return p.%s }" % (tn, tn))
         out.append("func (t *%s) WxProxy(pid int) any { return &P%s{t, pid} }" % (tn, tn))
         for i in t["ifaces"]:
-            out.append("func (t *%s) MI%d_%d() {}" % (tn, sid, i))
+            out.append("func (t *%s) %s() {}" % (tn, mname(i)))
         if t["naming"]:
             out.append("func (t *%s) Naming() string { return t.b.C.Name }" % tn)
         if t["qual"]:
@@ -465,6 +520,11 @@ def config_yaml(scn):
         for k, cp in enumerate(t["cfields"]):
             if cp["sat"]:
                 lines.append("k%d_%d_%d: v%d" % (sid, ti, k, k))
+        for k, p in enumerate(t["fields"]):
+            if p["sel"][0] == "name" and p.get("via") and p["sel"][1]:
+                val = p["sel"][1] if p["via"] == "cfg" else p["sel"][1][1:]
+                if p["via"] != "dflt":
+                    lines.append('%s: "%s"' % (name_key(sid, ti, k), val))
     return "\n".join(lines) + ("\n" if lines else "")
 
 
